@@ -77,6 +77,8 @@ SCHEMAS = {
     'pkt:Head': {'pyclass': ('tcpcl.contact', 'Head'), 'pkt': True,
                  'fields': {'magic': 'Bytes', 'version': 'Opt[Int]', 'payload': 'Int'}},
     'pkt:ContactV4': {'pyclass': ('tcpcl.contact', 'ContactV4'), 'pkt': True, 'fields': {'flags': 'Int', 'payload': 'Int'}},
+    # payload of a message whose type is bound to no message class (scapy's raw layer)
+    'pkt:Raw': {'pyclass': None, 'extclass': 'scapy.packet.Raw', 'pkt': True, 'fields': {'load': 'Bytes', 'payload': 'Int'}},
     'pkt:MessageHead': {'pyclass': ('tcpcl.messages', 'MessageHead'), 'pkt': True,
                         'fields': {'msg_id': 'Opt[Int]', 'payload': 'Int'}},
     'pkt:SessionInit': {'pyclass': ('tcpcl.messages', 'SessionInit'), 'pkt': True,
